@@ -102,6 +102,15 @@ func ledgerStrata() []stratum {
 			c.Depth, c.Fanout, c.MinStmts, c.MaxStmts = 1, 48, 1, 4
 			c.PSrcSeq, c.PDstSeq, c.PSrcCap, c.PSrcAllot, c.PDstAllot, c.PRepeat, c.PWorld, c.PAbsent, c.PSave = 70, 40, 10, 5, 10, 25, 2, 3, 20
 		}), 2},
+		{"assets-origins", with(func(c *gen.LCfg) {
+			// two assets on the same few accounts, amounts read from the store (balance / overdraft
+			// origins) before the statements run, negative balances under bounded overdrafts
+			c.Accounts = []string{"a", "b"}
+			c.Assets = []string{"USD", "EUR/2"}
+			c.MultiAsset = true
+			c.POriginVar, c.PNegBal, c.POverdraft, c.PUnbounded, c.PWorld, c.PAbsent = 40, 35, 45, 5, 5, 3
+			c.MinStmts, c.MaxStmts, c.Depth, c.PSrcSeq = 2, 5, 1, 40
+		}), 2},
 		{"longsrc", with(func(c *gen.LCfg) {
 			// several statements in a row that each draw from a dozen or more funded accounts
 			c.Accounts = manyAccountsL(60)
